@@ -56,9 +56,23 @@ fn show(o: Orient, img: &dyn Fn(u32, u32) -> u32, geom: u8) -> Result<Vec<(u32, 
     cfg.orient = o;
     let mut s = Session::start(&cfg)?;
     let (lw, lh) = cfg.logical_size(o);
-    for y in 0..lh {
-        for x in 0..lw {
-            s.dut.set_pixel(x as u16, y as u16, img(x, y)).map_err(|e| format!("{:?}", e))?;
+    // the picture is put on the screen through one of the entry points (the same one on both sides of
+    // a comparison, since `geom` is): pixel by pixel, as one draw_iter stream, or as one fill_contiguous
+    match (geom as usize / 3) % 3 {
+        0 => {
+            for y in 0..lh {
+                for x in 0..lw {
+                    s.dut.set_pixel(x as u16, y as u16, img(x, y)).map_err(|e| format!("{:?}", e))?;
+                }
+            }
+        }
+        1 => {
+            let mut it = (0..lh).flat_map(|y| (0..lw).map(move |x| (x, y))).map(|(x, y)| (x as i32, y as i32, img(x, y)));
+            s.dut.draw_iter(&mut it).map_err(|e| format!("{:?}", e))?;
+        }
+        _ => {
+            let mut it = (0..lh).flat_map(|y| (0..lw).map(move |x| (x, y))).map(|(x, y)| img(x, y));
+            s.dut.fill_contiguous(&Rect { x: 0, y: 0, w: lw, h: lh }, &mut it).map_err(|e| format!("{:?}", e))?;
         }
     }
     let m = s.w.borrow().panel.mem.written();
@@ -246,7 +260,7 @@ pub fn run(ctx: &Ctx) -> Report {
     let mut rep = Report::new("C15", "exploration");
     rep.assumptions = vec![
         "rotation is clockwise; flip_horizontal mirrors the picture left-right, flip_vertical top-bottom (as the property states)".into(),
-        "geometric meaning observed through a real Display (4x3 window at (2,1), (0,0) or (3,2) of a 7x5 framebuffer, unique colour per pixel) and the Panel".into(),
+        "geometric meaning observed through a real Display (4x3 window at (2,1), (0,0) or (3,2) of a 7x5 framebuffer, unique colour per pixel, drawn with set_pixel, draw_iter or fill_contiguous; with and without the batch feature) and the Panel".into(),
     ];
     let max = if ctx.tier == Tier::Thorough { 5 } else { 4 };
     let mut sec = Section::new(
@@ -258,7 +272,10 @@ pub fn run(ctx: &Ctx) -> Report {
     run_enumerated(&mut sec, words(max), ctx.workers, check, |_, _| "c15:algebra".into());
     rep.sections.push(sec);
 
-    // angles
+    // angles (independent of the batch feature: one build variant scans them)
+    if !cfg!(feature = "batch") {
+        return rep;
+    }
     let full = ctx.tier == Tier::Thorough;
     let mut sec = Section::new(
         &format!("angles[{}]", ctx.variant),
